@@ -13,3 +13,6 @@ extern "C" void vf_unresolved_stub(void) { std::printf("UNRESOLVED-STUB-REACHED\
 #include <time.h>
 extern "C" long long vf_clock_now;
 extern "C" int clock_gettime(clockid_t, struct timespec* ts) { ts->tv_sec = vf_clock_now / 1000000000LL; ts->tv_nsec = vf_clock_now % 1000000000LL; return 0; }
+// sleeping in the real build advances the symbolic clock instead of wall time
+extern "C" int nanosleep(const struct timespec* req, struct timespec*) { vf_clock_now += req->tv_sec * 1000000000LL + req->tv_nsec; return 0; }
+extern "C" int clock_nanosleep(clockid_t, int, const struct timespec* req, struct timespec*) { vf_clock_now += req->tv_sec * 1000000000LL + req->tv_nsec; return 0; }
